@@ -163,7 +163,7 @@ def chain_session(rng):
 
 def generate(tier, rng):
     out = exhaustive_removals()
-    n = 450 if tier == "quick" else 20000
+    n = 1500 if tier == "quick" else 20000
     for _ in range(n):
         out.append(pointer_session(rng))
     for _ in range(n):
@@ -288,7 +288,29 @@ def fmt_test(ph):
     return ":test " + " ".join(("%x " % len(p) + " ".join(" ".join(s) for s in p)).strip() for p in ph)
 
 
+def py_valid(s):
+    ch = Chain()
+    for op in split_ops(s):
+        if op[0] == ":inst":
+            ch.inst(int(op[1], 16), int(op[2], 16))
+        elif op[0] in (":en", ":dis"):
+            ch.on(int(op[1], 16), op[0] == ":en")
+        elif op[0] == ":rm":
+            ch.rm(int(op[1], 16))
+        elif op[0] == ":reset":
+            ch.reset()
+        elif ":set" in op and not ch.sp():
+            return False
+    return True
+
+
 def shrink(s):
+    for c in shrink_all(s):
+        if c.strip() and py_valid(c):
+            yield c
+
+
+def shrink_all(s):
     ops = split_ops(s)
     for i in range(len(ops)):
         yield " ".join(" ".join(o) for j, o in enumerate(ops) if j != i)
